@@ -16,6 +16,8 @@ import scipy.sparse as sps
 
 
 def _c(a):
+    if isinstance(a, np.ndarray):
+        return a.copy(order='K')       # keep the memory layout (Fortran-ordered inputs stay Fortran-ordered)
     return a.copy() if hasattr(a, 'copy') else a
 
 
@@ -47,6 +49,10 @@ def entries(pym, seed, thorough=False):
             return out
         E.append(dict(name=name, cfg=cfg, build=build, dirs=dirs or default_dirs, freeze=freeze, tol=tol,
                       linear=linear, ins=ins, h=h))
+        # the same entry with Fortran-ordered dense matrix inputs (memory layout must not matter)
+        if any(isinstance(x, np.ndarray) and x.ndim == 2 and x.shape[0] > 1 and x.shape[1] > 1 for x in ins) and not cfg.get('_layout'):
+            insF = [np.asfortranarray(x) if isinstance(x, np.ndarray) and x.ndim == 2 else x for x in ins]
+            add(name, dict(cfg, _layout='F'), mk, insF, nout=nout, dirs=dirs, freeze=freeze, tol=tol, linear=linear, h=h)
 
     def rnd(*shape):
         return rng.random(shape) + 0.25
@@ -261,6 +267,23 @@ def entries(pym, seed, thorough=False):
         Tc = Tg + 1j * np.triu(rng.standard_normal((ne_, ne_)))
         add('EigenSolve', dict(n=ne_, kind='dense complex general'), lambda si, so: pym.EigenSolve(si, so), [Tc], nout=2,
             dirs=lambda r: [np.triu(r.standard_normal((ne_, ne_))) + 1j * np.triu(r.standard_normal((ne_, ne_)))], tol=2e-5)
+        # EigenSolve (sparse): FE-like tridiagonal pencil, eigenvalue and eigenvector seeds
+        ns = int(rng.integers(8, 12))
+        kd = 2.0 + rng.random(ns)
+        ko = -(0.5 + 0.4 * rng.random(ns - 1))
+        Ks = sps.diags([ko, kd, ko], [-1, 0, 1], format='csc')
+        md = 1.0 + rng.random(ns)
+        mo = 0.1 * rng.random(ns - 1)
+        Ms = sps.diags([mo, md, mo], [-1, 0, 1], format='csc')
+
+        def sdirs(r, ns=ns):
+            d0, d1 = r.standard_normal(ns), r.standard_normal(ns - 1)
+            return sps.diags([d1, d0, d1], [-1, 0, 1], format='csc')
+        for kw, withB in ((dict(nmodes=2), False), (dict(nmodes=3, sigma=0.5), True), (dict(nmodes=2, sigma=0.0), True)):
+            insx = [Ks, Ms] if withB else [Ks]
+            add('EigenSolve', dict(n=ns, kind='sparse symmetric' + (' generalized' if withB else ''), **kw),
+                lambda si, so, kw=kw: pym.EigenSolve(si, so, hermitian=True, **kw), insx, nout=2,
+                dirs=(lambda r, withB=withB: [sdirs(r), 0.2 * sdirs(r)] if withB else [sdirs(r)]), tol=1e-4, h=1e-4)
     reps = 3 if thorough else 1
     for _ in range(reps):
         one_rep()
@@ -455,6 +478,16 @@ def protocol_check(entry, pym, rng):
             continue
         if not close(('ar', coef_a * za + coef_b * zb), c, 1e-8):
             fails.append(('seed linearity: sens(a*w1+b*w2) = a*sens(w1)+b*sens(w2)', dict(a=coef_a, b=coef_b)))
+            break
+    # homogeneity for very small seeds: sens(eps*w1) = eps*sens(w1)
+    eps = 1e-12
+    (g4,), _ = run([[eps * a for a in w1]])
+    for a, c in zip(g1, g4):
+        if a is None and c is None:
+            continue
+        za = 0.0 if a is None else a[1]
+        if not close(('ar', eps * za), c, 1e-6):
+            fails.append(('seed linearity: sens(eps*w) = eps*sens(w) for a tiny factor', dict(eps=eps)))
             break
     run([w1], twice=True)
     # seeds are not modified by sensitivity() in a way that changes a repeated call (covered above) and
